@@ -14,10 +14,15 @@
      - the premise of C04_error_clean_exportable (forall x, exportable ...) is false for every module with a struct-typed
        parameter (C04_error_clean_exportable_premise_false_for_struct_params);
      - the branch "wire Ok, second validation Err" of C04_change_refused fires only from a cache that is not cache_ok
-       (C04_change_refused_applies_second_validation). *)
+       (C04_change_refused_applies_second_validation).
+   Repair of both remarks (section at the end): C04_error_clean / C04_error_clean_step / C04_history_error_outputs /
+   C04_reply_always_built / C04_validated_values_export are applied at the module WITH the struct parameter, in a state
+   reached by six requests, to requests that fail after the driver ran; C04_second_validation_never_fails and
+   C04_fixed_point_cache_invariant are applied at the same module (its premises regular_md / cache_st hold). *)
 From Coq Require Import ZArith NArith Bool List Lia.
 Import ListNotations.
 Require Import FV.Gen.C04 FV.Base.Util FV.Base.F64 FV.Base.PyVal FV.C01.Model FV.C01.Lemmas.
+Require Import FV.C01.IdemDefs FV.C04.LemmasIdem.
 Require Import FV.C04.Model FV.C04.Lemmas FV.C04.LemmasHist FV.C04.ConcModel FV.C04.LemmasConc FV.C04.LemmasSolo
   FV.C04.Run FV.C04.Properties.
 
@@ -676,6 +681,87 @@ Example nv_second_validation_ok_cache :
   wire nv_E d_s (PDict [(ka, PInt 2)]) (prev_of nv_c ps) = Ok (PDict [(ka, PInt 2)]) /\
   dt_validate d_s (PDict [(ka, PInt 2)]) PNone = Ok (PDict [(ka, PInt 2)]).
 Proof. vm_compute. split; reflexivity. Qed.
+
+(* ------------------------------------------------------------------ error replies without exception (repair of remark 1) *)
+(* one step, the module with the struct parameter (premise of C04_error_clean_exportable false), error AFTER the driver ran *)
+Example C04_error_clean_step_applies :=
+  C04_error_clean_step nv_E nv_hook nv_md nv_c _ nv_wf_md nv_cache_ok nv_err_reply_drv.
+(* a reachable state: after requests 0..4 of hist and a change of the struct s (a, a_max, a_limits and s were rewritten).
+   Then a partial struct change (the optional member is taken from the cache) whose driver raises a non-SECoP
+   exception, and one whose driver returns an invalid read-back value: both are error replies issued after write_s
+   was called *)
+Definition pre6 : list request := firstn 5 hist ++ [chgr (us n_s) (PDict [(ka, PInt 2); (kb, PBool true)]) DNone].
+Definition rq_s_raise := chgr (us n_s) (PDict [(ka, PInt 4)]) (DRaise EPy).
+Definition rq_s_badread := chgr (us n_s) (PDict [(ka, PInt 4)]) (DVal (PDict [(kb, PBool true)])).
+Example nv_pre6_state :
+  final nv_E nv_hook nv_md nv_c pre6 =
+  [(n_a, PInt 4); (n_amax, PInt 3); (n_alim, PTuple [PInt 3; PInt 9]); (n_s, PDict [(ka, PInt 2); (kb, PBool true)]);
+   (n_r, PBool true)] /\
+  map (fun rq => let o := handle nv_E nv_hook nv_md (final nv_E nv_hook nv_md nv_c pre6) rq in (o_reply o, o_drv o))
+      [rq_s_raise; rq_s_badread] =
+  [(Some InternalError, [Write n_s (PDict [(ka, PInt 4); (kb, PBool true)])]);
+   (Some WrongType, [Write n_s (PDict [(ka, PInt 4); (kb, PBool true)])])].
+Proof. vm_compute. split; reflexivity. Qed.
+Lemma nv_err_s_raise : o_reply (handle nv_E nv_hook nv_md (final nv_E nv_hook nv_md nv_c pre6) rq_s_raise) <> None.
+Proof. vm_compute. discriminate. Qed.
+Lemma nv_err_s_badread : o_reply (handle nv_E nv_hook nv_md (final nv_E nv_hook nv_md nv_c pre6) rq_s_badread) <> None.
+Proof. vm_compute. discriminate. Qed.
+Example C04_error_clean_applies_raise :=
+  C04_error_clean nv_E nv_hook nv_md nv_wf_md nv_names_unique pre6 nv_c rq_s_raise nv_cache_ok nv_err_s_raise.
+Example C04_error_clean_applies_badread :=
+  C04_error_clean nv_E nv_hook nv_md nv_wf_md nv_names_unique pre6 nv_c rq_s_badread nv_cache_ok nv_err_s_badread.
+(* request 14 of hist: HardwareError after write_a(3) *)
+Lemma nv_out14_err : o_reply (out_at 14) <> None.
+Proof. vm_compute. discriminate. Qed.
+Example C04_history_error_outputs_applies :=
+  C04_history_error_outputs nv_E nv_hook nv_md nv_wf_md nv_names_unique hist nv_c nv_cache_ok (out_at 14)
+    (out_at_in 14 ltac:(lia)) nv_out14_err.
+(* validated values export: an array of structs, one of them without the optional member, one complete *)
+Lemma nv_arr_in_set : in_setb d_arr (PTuple [PDict [(ka, PInt 1)]; PDict [(ka, PInt 2); (kb, PBool false)]]) = true.
+Proof. vm_compute. reflexivity. Qed.
+Example C04_validated_values_export_applies := C04_validated_values_export d_arr _ nv_arr_in_set.
+(* ... while not every python value exports (the conclusion is not trivially true): unknown key / mandatory member absent *)
+Example nv_not_everything_exports :
+  exportable d_arr (PTuple [PDict [(ka, PInt 1); (n_a, PNone)]]) = false /\ exportable d_arr (PTuple [PDict [(kb, PBool true)]]) = false.
+Proof. vm_compute. split; reflexivity. Qed.
+Lemma nv_validate_s : dt_validate d_s (PDict [(ka, PInt 2)]) PNone = Ok (PDict [(ka, PInt 2)]).
+Proof. vm_compute. reflexivity. Qed.
+Example C04_validate_result_exports_applies :=
+  C04_validate_result_exports d_s ltac:(vm_compute; auto) (PDict [(ka, PInt 2)]) PNone _ (or_introl eq_refl) nv_validate_s.
+Lemma nv_ps_in : In (AParam ps) (md_acc nv_md).
+Proof. right; right; right; left; reflexivity. Qed.
+Example C04_reply_always_built_applies :=
+  C04_reply_always_built nv_hook nv_md nv_c ps (PDict [(ka, PInt 2)]) DNone nv_wf_md nv_cache_ok nv_ps_in
+    ltac:(vm_compute; reflexivity).
+
+(* ------------------------------------------------------------------ the second validation (repair of remark 2) *)
+Lemma nv_regular : regular_md nv_md.
+Proof.
+  intros p [H|[H|[H|[H|[H|[H|[H|[]]]]]]]]; try discriminate; injection H as <-; vm_compute; split; reflexivity.
+Qed.
+Lemma nv_cache_st : cache_st nv_md nv_c.
+Proof.
+  intros p [H|[H|[H|[H|[H|[H|[H|[]]]]]]]]; try discriminate; injection H as <-;
+    (eexists; split; [vm_compute; reflexivity|]); vm_compute; reflexivity.
+Qed.
+(* the cache c_bad of the remark is not a cache of fixed points *)
+Example nv_c_bad_not_st : ~ cache_st nv_md c_bad.
+Proof. intros H. destruct (H ps nv_ps_in) as (x & G & S). vm_compute in G. injection G as <-. vm_compute in S. discriminate. Qed.
+Example C04_fixed_point_cache_invariant_applies : cache_st nv_md (final nv_E nv_hook nv_md nv_c hist).
+Proof. exact (C04_fixed_point_cache_invariant nv_E nv_hook nv_md nv_wf_md nv_regular nv_names_unique hist nv_c nv_cache_st). Qed.
+(* after six requests: the partial change {ka: 4} is completed from the cached {ka: 2, kb: true}; the wrapper's validation
+   returns the completed value unchanged and write_s receives it *)
+Definition rq_s_partial := chgr (us n_s) (PDict [(ka, PInt 4)]) DNone.
+Lemma nv_wire_partial :
+  wire nv_E (p_dt ps) (rq_data rq_s_partial) (prev_of (final nv_E nv_hook nv_md nv_c pre6) ps) =
+  Ok (PDict [(ka, PInt 4); (kb, PBool true)]).
+Proof. vm_compute. reflexivity. Qed.
+Example C04_second_validation_never_fails_applies :=
+  C04_second_validation_never_fails nv_E nv_hook nv_md nv_wf_md nv_regular nv_names_unique pre6 nv_c nv_cache_st
+    rq_s_partial ps _ (nv_lookup_s _ _) nv_wire_partial.
+Example nv_partial_reaches_driver :
+  o_drv (handle_change nv_E nv_hook nv_md (final nv_E nv_hook nv_md nv_c pre6) rq_s_partial) <> [].
+Proof. vm_compute. discriminate. Qed.
 
 (* ------------------------------------------------------------------ theorems without premises, for completeness *)
 Example C04_fail_shape_applies := C04_fail_shape nv_c (ESecop RangeError) [(0%nat, PInt 7)].
